@@ -48,6 +48,7 @@ inline constexpr void convert_type_fundamental(T_To& to,
 
     // The source may be a location in sandbox memory: read it once, so that
     // the value that is range checked is the value that is converted
+    RLBOX_VERIF_READ(&from_loc);
     const std::remove_cv_t<T_From> from = from_loc;
 
     const char* err_msg =
@@ -61,38 +62,30 @@ inline constexpr void convert_type_fundamental(T_To& to,
       // Eg: int64_t from int32_t, uint64_t from uint32_t
     } else if constexpr (is_unsigned_v<T_To> && is_unsigned_v<T_From>) {
       // Eg: uint32_t from uint64_t
-      RLBOX_VERIF_READ(&from);
       dynamic_check(from <= numeric_limits<T_To>::max(), err_msg);
     } else if constexpr (is_signed_v<T_To> && is_signed_v<T_From>) {
       // Eg: int32_t from int64_t
-      RLBOX_VERIF_READ(&from);
       dynamic_check(from >= numeric_limits<T_To>::min(), err_msg);
-      RLBOX_VERIF_READ(&from);
       dynamic_check(from <= numeric_limits<T_To>::max(), err_msg);
     } else if constexpr (is_unsigned_v<T_To> && is_signed_v<T_From>) {
       if constexpr (sizeof(T_To) < sizeof(T_From)) {
         // Eg: uint32_t from int64_t
-        RLBOX_VERIF_READ(&from);
         dynamic_check(from >= 0, err_msg);
         auto to_max = numeric_limits<T_To>::max();
-        RLBOX_VERIF_READ(&from);
         dynamic_check(from <= static_cast<T_From>(to_max), err_msg);
       } else {
         // Eg: uint32_t from int32_t, uint64_t from int32_t
-        RLBOX_VERIF_READ(&from);
         dynamic_check(from >= 0, err_msg);
       }
     } else if constexpr (is_signed_v<T_To> && is_unsigned_v<T_From>) {
       if constexpr (sizeof(T_To) <= sizeof(T_From)) {
         // Eg: int32_t from uint32_t, int32_t from uint64_t
         auto to_max = numeric_limits<T_To>::max();
-        RLBOX_VERIF_READ(&from);
         dynamic_check(from <= static_cast<T_From>(to_max), err_msg);
       } else {
         // Eg: int64_t from uint32_t
       }
     }
-    RLBOX_VERIF_READ(&from);
     to = static_cast<T_To>(from);
   }
   else
